@@ -106,31 +106,31 @@ CLAIMED["C12"] = dict(
     engine="tlc+stallguard+selection", design_ref="4.12",
     technique="TLA+ frame property (Select leaves liveness/accounting unchanged) and GuardOffClears on the StallGuard "
               "state graph; GuardOffIsBaseline on the Selection vectors; replay of every Select transition and "
-              "vector on the real selector with a field-by-field projection compared around the call",
+              "vector on the real selector with a field-by-field projection compared around the call; the UNMODIFIED event loop (run_sender_with_config on a paused clock, real sockets) recorded end to end and validated by TLC against the observer Trace_Loop.tla (guard switched off at run time, also in the middle of an outage while the victim is latched: no link is reported latched once a datagram has been routed, engagement counters stand still)",
     text="Every Select transition of the timed stall-guard graph and every enumerated selector vector is executed "
          "on the real select_connection_idx with a projection of all liveness / accounting fields of every link "
          "taken before and after; with the guard off every flag, latch and pull must be cleared and the decision "
          "must equal the decision on the same links without stall history.",
     note="Trusted: the projection lists the fields named in the statement (connected, receive/send/keepalive stamps, "
-         "window, in-flight count and log size, NAK counters, proof stamp, phase, reconnect state, queue depth).")
+         "window, in-flight count and log size, NAK counters, proof stamp, phase, reconnect state, queue depth). Loop part: observed through the stats lines a reading control client is pushed once per housekeeping pass (latch flag and engagement counters); the routing flag of the sub-second silence pull is not published and stays with the component parts.")
 CLAIMED["C13"] = dict(
     engine="tlc+stallguard", design_ref="4.13",
     technique="TLA+ timed per-link latch/pull machine with an independent monitor of the statement; TLC on the "
               "complete state graphs; every Select transition replayed on the real selector; recorded ms-resolution "
-              "histories validated by TLC against the monitor",
+              "histories validated by TLC against the monitor; the UNMODIFIED event loop (run_sender_with_config on a paused clock, real sockets) recorded end to end and validated by TLC against the observer Trace_Loop.tla (a latch holds for at least two staleness windows of at least one second: the published engagement counter of a link never rises twice within two consecutive stats periods on the same registration with the guard on)",
     text="TLC explores the complete graph of the per-link stall machine (decisions, proofs with and without a byte, "
          "inbound bytes, load and RTT changes, disconnects, resets, guard toggles, clock steps; ceiling above and "
          "below the floor) and checks the rise / never-blind / rejoin-dwell / pull-release rules against a monitor "
          "written from the statement; 8.7e5+ Select transitions are executed on the real selector and 20k-320k "
          "event histories through the real RTT tracker are judged by the same monitor at ms resolution.",
     note="The smoothed RTT is an input. One genuine defect (pull released after an RTT-widened window) is recorded in "
-         "known_findings.json and reported as KNOWN-FINDING; any other release without a byte is a violation.")
+         "known_findings.json and reported as KNOWN-FINDING; any other release without a byte is a violation. Loop part: a necessary consequence of the rejoin dwell only, at the 1 s resolution of the stats lines.")
 
 CLAIMED["C17"] = dict(
     engine="tlc+weakfilter", design_ref="4.17",
     technique="TLA+ model of classify() with history-variable monitors for the five clauses; TLC on the complete "
               "2-link graph at the real constants; TLC transitions replayed on the real WeakLinkFilter; recorded tick "
-              "histories validated by TLC",
+              "histories validated by TLC; the UNMODIFIED event loop (run_sender_with_config on a paused clock, real sockets) recorded end to end and validated by TLC against the observer Trace_Loop.tla and its stats snapshots as verdict histories against Trace_WeakObs.tla (not weak while disconnected or under the floor, share-weak runs of at most 15 then a 3-tick probation, enter / leave thresholds), on long dense streams with an uplink that loses everything for half a minute",
     text="TLC explores the complete reachable graph of the classifier for 2 links at the real constants (15-tick "
          "probation interval, 3-tick window, 2-tick sustain; 81 inputs per tick) and checks not-weak-when-off, "
          "two-tick delay, bounded share-weak runs followed by the probation window, and the enter/leave thresholds; "
@@ -138,7 +138,7 @@ CLAIMED["C17"] = dict(
          "classifier incl. disconnected-but-present links and links leaving the set, and 20k-200k tick histories "
          "with rates in bit/s over 4 link slots are validated against the same module.",
     note="The delay signal is an input: the tier cascade is driven with RTTs far above / below every tier. The "
-         "verdict sequence (weak, reason class, share, threshold) is compared exactly.")
+         "verdict sequence (weak, reason class, share, threshold) is compared exactly. Loop part: the classifier's delay input is not visible from outside, so the two-tick delay clause and the exact filter replay stay with the component parts.")
 
 CLAIMED["C07"] = dict(
     engine="tlc+registration", design_ref="4.7",
@@ -161,7 +161,7 @@ CLAIMED["C16"] = dict(
     engine="tlc+linkcc", design_ref="4.16",
     technique="TLA+ relational specification of the property (LinkCcRel/LinkCc) and integer transcription of tick() "
               "(LinkCcImpl) checked against it by TLC one step from every grid state; one-step edges replayed on a "
-              "real LinkCongestionState; recorded controller histories validated by TLC against the relations",
+              "real LinkCongestionState; recorded controller histories validated by TLC against the relations; the UNMODIFIED event loop (run_sender_with_config on a paused clock, real sockets) recorded end to end and validated by TLC against the observer Trace_Loop.tla and its stats snapshots, one Tick line per uplink and housekeeping pass, against the same Trace_LinkCc relations and latch rule (tick_all wiring: one tick per pass and link, the right connection, the loop's clock; a lossy uplink, outages, reloads)",
     text="TLC takes the transcribed tick() from every state of a boundary grid (5 controller states x 64 targets x "
          "every input combination) and checks range, floor-until-RTT, lowered-only-by back-off (x0.85, not below the "
          "delivered rate) or drain entry (x0.75), back-off never raises, growth <= 6% and <= 2x measured after the "
@@ -177,7 +177,7 @@ SHELL_NOTE = ("Binding = ShellSim (the real arm functions driven directly under 
               "event loop as a task on a paused tokio clock with now_ms() routed to it; observed only from its "
               "sockets, so timer periods, arm wiring and run-time configuration reads are executed for real). "
               "Trusted: the harness's frame classification by type code, the 24-bit digest, the fault injection "
-              "(socket write side shut down, a 4 KiB datagram pair for back-pressure), tokio's paused-clock semantics.")
+              "(socket write side shut down, a 4 KiB datagram pair for back-pressure), tokio's paused-clock semantics. Loop part: the measured rate is taken from the same snapshot in whole bytes/s (within the relations' slack).")
 
 CLAIMED["C01"] = dict(
     engine="tlc+shellsim", design_ref="4.1",
@@ -327,7 +327,7 @@ CLAIMED["C05"] = dict(
     engine="tlc+inflight+shellsim", design_ref="4.5",
     technique="TLA+ NakAttr.tla (outstanding sets, the carrier memory as a ring with collision and expiry, the "
               "charging rule) checked by TLC on every bounded path; every path replayed on the real "
-              "SequenceTracker / links / attribute_nak; ShellSim runs validated by TLC against NakAttr",
+              "SequenceTracker / links / attribute_nak; ShellSim runs validated by TLC against NakAttr; the UNMODIFIED event loop (run_sender_with_config on a paused clock, real sockets) recorded end to end and validated by TLC against the observer Trace_Loop.tla (the loss count every uplink publishes in its stats lines = the loss reports the receiver sent for numbers that uplink held, each charged once; lists, ranges, repeats, unknown numbers, reports arriving on another uplink, a link losing everything for half a minute)",
     text="TLC explores every path of <= 7 events (unique copies re-routed to another link, probe copies, colliding "
          "numbers in a 2-slot ring, clock steps landing on age = 5000 ms and just beyond, cumulative / SRTLA ACKs, "
          "resets, NAKs of every number) and checks that a NAK charges at most one holder, only the remembered "
@@ -336,7 +336,7 @@ CLAIMED["C05"] = dict(
          "in-flight slot; in ShellSim runs the per-link deltas around every NAK datagram (lists, ranges, "
          "duplicates) must equal the specification's charges.",
     note=SHELL_NOTE + " When the carrier is no longer remembered the property allows any one holder; the comparison "
-         "follows the code's choice (first holder in index order).")
+         "follows the code's choice (first holder in index order). Loop part: the receiver only reports numbers it got exactly once and retransmissions are kept away from reportable numbers, so that the carrier is unambiguous from outside; where the client re-offers a reported number the observer allows the charge to fall on at most one holder.")
 
 CLAIMED["C18"] = dict(
     engine="tlc+control", design_ref="4.18",
